@@ -25,6 +25,7 @@ Terms (nested tuples):
 ('ld', era, loc) is the value a location held when it was first read in that era (era 0 = method entry;
 each loop iteration / loop exit starts a new era).
 """
+import os
 import re
 import sys
 
@@ -131,6 +132,15 @@ class State:
         return any(g[3] for g in self.guards)
 
 
+def rec_node_inner(rec):
+    return getattr(rec, 'node', {}).get('inner', []) if hasattr(rec, 'node') else []
+
+
+def json_types(node):
+    """concatenated parameter type strings of a method node (to tell a template pattern from its instantiations)"""
+    return ' '.join((c.get('type', {}).get('qualType', '') or '') for c in node.get('inner', []) if c.get('kind') == 'ParmVarDecl')
+
+
 def opt_content(v):
     """(has_value, value) of an optional whose construction is visible on the path, else None"""
     if isinstance(v, tuple) and v:
@@ -227,6 +237,9 @@ def root_of(t):
     return ('other', None)
 
 
+ALGORITHMS = ('for_each', 'find_if', 'find_if_not', 'any_of', 'all_of', 'none_of', 'count_if', 'accumulate')
+
+
 class LambdaMethod:
     """call operator of a local lambda, shaped like frontend.Method for inlining"""
 
@@ -272,7 +285,8 @@ class Evaluator:
         k = loc[0]
         if k in ('int', 'bool', 'enum', 'ctor', 'now', 'rng', 'pred', 'res', 'adv', 'add', 'bin', 'cmp', 'not',
                  'unk', 'global', 'cast', 'hasval', 'optval', 'float', 'str', 'pair', 'undef', 'some', 'lv', 'ld', 'ma',
-                 'fn', 'void', 'default', 'un', 'mcall', 'fncall', 'randdev', 'rng-state', 'iota', 'lambda', 'addr'):
+                 'fn', 'void', 'default', 'un', 'mcall', 'fncall', 'randdev', 'rng-state', 'iota', 'lambda', 'addr', 'vit',
+                 'atomicval', 'persistent', 'guardval'):
             if k == 'lv' and loc in st.store:
                 return st.store[loc]
             return loc
@@ -280,6 +294,10 @@ class Evaluator:
             return loc          # value-returning query (find/begin/end/size...): already a value
         if loc in st.store:
             v = st.store[loc]
+            if k == 'var' and isinstance(v, tuple) and v and v[0] == 'ctor':
+                v = self.overlay_fields(st, loc, v)
+            elif k == 'var' and isinstance(v, tuple) and v and v[0] == 'pair' and len(v) == 3:
+                v = ('pair', st.store.get(('fld', loc, 'first'), v[1]), st.store.get(('fld', loc, 'second'), v[2]))
         elif k == 'fld' and loc[1] in st.store and self.agg_field(st.store[loc[1]], loc[2]) is not None:
             return self.agg_field(st.store[loc[1]], loc[2])
         elif k == 'var':
@@ -296,6 +314,33 @@ class Evaluator:
             if r[0] in ('field', 'res', 'this', 'heap'):
                 st.ev('rd', loc, site_of(n, st) if n is not None else None)
         return v
+
+    def record_of(self, tq):
+        tname = (tq or '').replace('const ', '').split('::')[-1].split('<')[0].strip(' &')
+        return self.cm.records.get(tname)
+
+    def overlay_fields(self, st, loc, v):
+        """value of a local struct: its construction with the member-wise assignments made since laid over it"""
+        rec = self.record_of(v[1])
+        if rec is None or len(v[2]) != len(rec.fields):
+            return v
+        args = list(v[2])
+        for i, f in enumerate(rec.fields):
+            fl = ('fld', loc, f.name)
+            if fl in st.store:
+                args[i] = st.store[fl]
+        return ('ctor', v[1], tuple(args))
+
+    def nsdmi(self, f, st):
+        """value of a field's default member initialiser (constants only), else ('default',)"""
+        inner = [c for c in f.node.get('inner', []) if isinstance(c, dict) and c.get('kind') and not c['kind'].endswith('Comment')]
+        if not inner:
+            return ('default',)
+        for st2, t in self.rv(inner[0], st.fork() if hasattr(st, 'fork') else st):
+            if isinstance(t, tuple) and t and t[0] in ('int', 'bool', 'enum', 'float', 'str', 'global', 'ctor'):
+                return t
+            break
+        return ('default',)
 
     def agg_field(self, v, name):
         """field of an aggregate / simple struct value constructed on the path: T{a, b} or T(a, b) with a member-wise constructor"""
@@ -378,10 +423,18 @@ class Evaluator:
                 t = ('cast', qt(n), t)
             yield st2, t
 
+    INTEGRAL = ('unsigned long', 'long', 'int', 'unsigned int', 'unsigned long long', 'long long', 'size_t', 'std::size_t', 'uint64_t', 'int64_t')
+
     def e_CStyleCastExpr(self, n, st):
         sub = n['inner'][0]
+        dst = (n.get('type', {}).get('desugaredQualType') or qt(n) or '').replace('const ', '').strip()
+        srct = (sub.get('type', {}).get('desugaredQualType') or qt(sub) or '').replace('const ', '').strip()
         for st2, t in self.rv(sub, st):
-            yield st2, ('cast', qt(n), t)
+            if dst in self.INTEGRAL and srct in self.INTEGRAL and '64' not in dst + srct and \
+                    ('long' in dst) >= ('long' in srct):
+                yield st2, t        # widening / same-width integral conversion of an index or count: the value itself
+            else:
+                yield st2, ('cast', qt(n), t)
 
     e_CXXStaticCastExpr = e_CStyleCastExpr
 
@@ -464,6 +517,10 @@ class Evaluator:
         if isinstance(b, tuple):
             if b[0] == 'pair' and name in ('first', 'second'):
                 return b[1] if name == 'first' else b[2]
+            if b[0] == 'ctor':
+                v = self.agg_field(b, name)
+                if v is not None:
+                    return v
             if b[0] == 'deref' and isinstance(b[1], tuple) and b[1][0] == 'res':
                 info = st.results.get(b[1][1])
                 # *emplace_result of a map-like container: the stored (key, value) pair
@@ -487,6 +544,12 @@ class Evaluator:
         op = n['opcode']
         l, r = n['inner'][0], n['inner'][1]
         if op == '=':
+            if qt(l) == 'bool' and self.is_bool_expr(r):
+                for st2, truth in self.cond(self.bool_core(r), st):
+                    for st3, lt in self.eval(l, st2):
+                        self.write(st3, lt, ('bool', truth), n)
+                        yield st3, lt
+                return
             for st2, rt in self.rv(r, st):
                 for st3, lt in self.eval(l, st2):
                     self.write(st3, lt, rt, n)
@@ -520,6 +583,12 @@ class Evaluator:
         yield from self.e_BinaryOperator(n, st)
 
     def arith(self, op, a, b):
+        if op == '-' and isinstance(a, tuple) and a and a[0] == 'addr' and isinstance(a[1], tuple) and a[1][0] == 'idx':
+            # &v[i] - v.data()  /  &v[i] - &v[0]  ==  i
+            vec, i = a[1][1], a[1][2]
+            if isinstance(b, tuple) and b and ((b[0] == 'q' and b[1] == 'data' and b[2] == vec) or
+                                               (b[0] == 'addr' and b[1] == ('idx', vec, ('int', 0)))):
+                return i
         if op in ('+', '-') and isinstance(b, tuple) and b[0] == 'int':
             k = b[1] if op == '+' else -b[1]
             if isinstance(a, tuple) and a[0] == 'add':
@@ -548,6 +617,10 @@ class Evaluator:
             return
         if op == '*':
             for st2, t in self.rv(sub, st):
+                if isinstance(t, tuple) and t and t[0] == 'vit':
+                    st2.ev('q', ('q', 'operator[]', t[1], (t[2],), None), site_of(n, st2))
+                    yield st2, ('idx', t[1], t[2])
+                    continue
                 yield st2, (t[1] if isinstance(t, tuple) and t and t[0] == 'addr' else ('deref', t))
             return
         if op == '&':
@@ -555,10 +628,28 @@ class Evaluator:
                 yield st2, ('addr', t)
             return
         for st2, t in self.rv(sub, st):
-            yield st2, ('un', op, t)
+            if op == '-' and isinstance(t, tuple) and t and t[0] == 'int':
+                yield st2, ('int', -t[1])
+            elif op == '+' and isinstance(t, tuple) and t and t[0] == 'int':
+                yield st2, t
+            else:
+                yield st2, ('un', op, t)
+
+    NORETURN = ('__assert_fail', '__assert_perror_fail', '__assert', 'abort', 'terminate', '__builtin_unreachable', '__builtin_trap')
+
+    def is_noreturn_call(self, x):
+        x = self.strip(x)
+        while x.get('kind') in ('CStyleCastExpr', 'CXXFunctionalCastExpr', 'CXXStaticCastExpr', 'ParenExpr') and x.get('inner'):
+            x = self.strip([c for c in x['inner'] if isinstance(c, dict) and c.get('kind')][0])
+        return x.get('kind') == 'CallExpr' and self.callee_name(x)[0] in self.NORETURN
 
     def e_ConditionalOperator(self, n, st):
         c, a, b = n['inner'][0], n['inner'][1], n['inner'][2]
+        if self.is_noreturn_call(a) or self.is_noreturn_call(b):
+            # assert(E): not part of the algorithm (absent from NDEBUG builds); neither its reads nor its condition are recorded
+            st.ev('assert', site_of(n, st))
+            yield st, ('void',)
+            return
         for st2, truth in self.cond(c, st):
             yield from self.eval(a if truth else b, st2)
 
@@ -567,7 +658,18 @@ class Evaluator:
         scalar = qt(n) in ('unsigned long', 'long', 'int', 'unsigned int', 'bool', 'float', 'double', 'unsigned long long',
                            'long long', 'char', 'short', 'unsigned short', 'unsigned char')
         tname = (qt(n) or '').split('::')[-1].split('<')[0].strip()
+        rec = self.record_of(qt(n))
         for st2, args in self.eval_args(elems, st):
+            if rec is not None and len(args) <= len(rec.fields):
+                args = list(args) + [('default',)] * (len(rec.fields) - len(args))
+                for i, f in enumerate(rec.fields):
+                    if args[i] == ('default',):
+                        args[i] = self.nsdmi(f, st2)
+                yield st2, ('ctor', qt(n), tuple(args))
+                continue
+            if typeclass(qt(n)) == 'pair' and len(args) == 2:
+                yield st2, ('pair', args[0], args[1])
+                continue
             if len(args) == 1 and isinstance(args[0], tuple) and args[0] and args[0][0] in ('enum', 'int', 'bool') \
                     and tname not in self.cm.records:
                 yield st2, args[0]          # brace-initialised scalar / enum: the value itself
@@ -594,7 +696,26 @@ class Evaluator:
                 for st2, t in self.rv(a0, st):
                     yield st2, t
                 return
+        rec = self.record_of(qt(n))
+        if rec is not None and not args and not any(c.get('kind') == 'CXXConstructorDecl' and not c.get('isImplicit') for c in rec_node_inner(rec)):
+            yield st, ('ctor', qt(n), tuple(self.nsdmi(f, st) for f in rec.fields))
+            return
+        if tc == 'time_point' and len(args) == 1 and typeclass(qt(args[0])) == 'duration':
+            # time_point{duration since epoch}: inverse of time_since_epoch()
+            for st2, t in self.rv(args[0], st):
+                yield st2, t
+            return
         for st2, ts in self.eval_args(args, st):
+            if tc == 'optional' and ts and ts[0] == ('global', 'in_place'):
+                ts = ts[1:]                 # optional<T>{std::in_place, args...}: engaged, built from args
+            if tc == 'pair' and len(ts) == 2:
+                yield st2, ('pair', ts[0], ts[1])       # std::pair<A, B>{a, b} == std::make_pair(a, b)
+                continue
+            if tc == 'pair' and len(ts) == 3 and ts[0] == ('global', 'piecewise_construct'):
+                a, b = ts[1], ts[2]
+                if all(isinstance(x, tuple) and x and x[0] == 'fncall' and x[1] == 'forward_as_tuple' and len(x[2]) == 1 for x in (a, b)):
+                    yield st2, ('pair', a[2][0], b[2][0])
+                    continue
             yield st2, ('ctor', qt(n), tuple(ts))
 
     @staticmethod
@@ -631,6 +752,17 @@ class Evaluator:
         rec = next((c for c in n.get('inner', []) if c.get('kind') == 'CXXRecordDecl'), None)
         ops_ = [c for c in (rec or {}).get('inner', []) if c.get('kind') == 'CXXMethodDecl' and c.get('name') == 'operator()']
         if not ops_:
+            # generic lambda: the call operator is a template; use its instantiation(s) that have a body
+            for t in (rec or {}).get('inner', []):
+                if t.get('kind') == 'FunctionTemplateDecl' and t.get('name') == 'operator()':
+                    insts = [c for c in t.get('inner', []) if c.get('kind') == 'CXXMethodDecl' and
+                             any(x.get('kind') == 'CompoundStmt' for x in c.get('inner', []))]
+                    # the pattern itself comes first (dependent types); instantiations follow
+                    insts = [c for c in insts if '<dependent type>' not in json_types(c)] or insts
+                    ops_ = insts[-1:] if insts else []
+                    for c in insts:
+                        self.ctx.lambdas[c['id']] = LambdaMethod(c, st.fn_stack[-1] if st.fn_stack else '?')
+        if not ops_:
             yield st, self.unknown(st, 'expr:LambdaExpr (generic / no call operator)', n)
             return
         self.ctx.lambdas[ops_[0]['id']] = LambdaMethod(ops_[0], st.fn_stack[-1] if st.fn_stack else '?')
@@ -662,6 +794,16 @@ class Evaluator:
                     yield st2, (known[1] if known is not None and known[0] else ('optval', cur))
                 return
             for st2, itv in self.rv(a0, st):
+                if isinstance(itv, tuple) and itv and itv[0] == 'q' and itv[1] in ('rbegin', 'crbegin') and name == 'operator*':
+                    # *l.rbegin() is l.back()
+                    loc = ('q', 'back', itv[2], (), itv[4])
+                    st2.ev('q', loc, site_of(n, st2))
+                    yield st2, loc
+                    continue
+                if isinstance(itv, tuple) and itv and itv[0] == 'vit':
+                    st2.ev('q', ('q', 'operator[]', itv[1], (itv[2],), None), site_of(n, st2))
+                    yield st2, ('idx', itv[1], itv[2])
+                    continue
                 st2.ev('use', itv, 'deref', site_of(n, st2))
                 yield st2, ('deref', itv)
             return
@@ -673,6 +815,25 @@ class Evaluator:
                 new = self.adv(st2, old, d, t0)
                 self.write(st2, loc, new, n, '++' if d > 0 else '--')
                 yield st2, (old if len(args) == 2 else loc)
+            return
+        if name == 'operator=' and self.strip(a0).get('kind') == 'CallExpr' and self.callee_name(self.strip(a0))[0] == 'tie':
+            # std::tie(x, y) = p;   x = p.first; y = p.second  (tuple-like right-hand sides by std::get index)
+            tie_args = self.strip(a0)['inner'][1:]
+            rhs = args[1]
+            for st2, locs in self.eval_args(tie_args, st, as_value=False):
+                for st3, rl in (self.eval(rhs, st2) if rhs.get('valueCategory') in ('lvalue', 'xvalue') else self.rv(rhs, st2)):
+                    is_pair = typeclass(qt(rhs)) == 'pair'
+                    for i, l in enumerate(locs):
+                        if isinstance(rl, tuple) and rl and rl[0] == 'pair':
+                            v = rl[1 + i] if i < 2 else ('undef',)
+                        elif isinstance(rl, tuple) and rl and rl[0] == 'ctor' and i < len(rl[2]):
+                            v = rl[2][i]
+                        elif is_pair:
+                            v = self.load(st3, self.project(st3, rl, 'first' if i == 0 else 'second'), n)
+                        else:
+                            v = self.load(st3, ('get', i, rl), n)
+                        self.write(st3, l, v, n)
+                    yield st3, ('void',)
             return
         if name == 'operator=':
             for st2, rt in self.rv(args[1], st):
@@ -761,6 +922,10 @@ class Evaluator:
                 if len(ts) > 1 and ts[1] != ('default',):
                     if isinstance(ts[1], tuple) and ts[1][0] == 'int':
                         k = d * ts[1][1]
+                    elif name == 'next' and typeclass(qt(args[0])) == 'vec_it' and isinstance(ts[0], tuple) and ts[0][0] == 'q' \
+                            and ts[0][1] in ('begin', 'cbegin'):
+                        yield st2, ('vit', ts[0][2], ts[1])        # begin(v) + i
+                        continue
                     else:
                         yield st2, self.unknown(st2, 'std::%s with symbolic distance' % name, n)
                         continue
@@ -774,6 +939,47 @@ class Evaluator:
         if name == 'make_pair':
             for st2, ts in self.eval_args(args, st):
                 yield st2, ('pair', ts[0], ts[1])
+            return
+        if name in ALGORITHMS and len(args) >= 3:
+            yield from self.algorithm(n, name, args, st)
+            return
+        if name == 'exchange' and len(args) == 2:
+            # old = a; a = b; return old
+            for st2, lt in self.eval(args[0], st):
+                for st3, nv in self.rv(args[1], st2):
+                    old_v = self.load(st3, lt, n)
+                    self.write(st3, lt, nv, n)
+                    yield st3, old_v
+            return
+        if name == 'iter_swap' and len(args) == 2:
+            for st2, its in self.eval_args(args, st):
+                la, lb = self.deref_term(its[0]), self.deref_term(its[1])
+                va = self.load(st2, la, n)
+                vb = self.load(st2, lb, n)
+                st2.ev('swap', la, lb, site_of(n, st2))
+                self.write(st2, la, vb, n, 'swap')
+                self.write(st2, lb, va, n, 'swap')
+                yield st2, ('void',)
+            return
+        if name in ('duration_cast', 'time_point_cast') and len(args) == 1:
+            # exact (hence the identity on the represented time) when the target period divides the source period
+            def period(tq):
+                m = re.search(r'duration<[^,<>]*(?:<[^<>]*>)?[^,<>]*,\s*std::ratio<\s*(\d+)\s*(?:,\s*(\d+)\s*)?>', tq or '')
+                if m:
+                    return (int(m.group(1)), int(m.group(2) or 1))
+                if re.search(r'duration<[^,<>]+>', tq or ''):
+                    return (1, 1)
+                named = {'nanoseconds': (1, 10**9), 'microseconds': (1, 10**6), 'milliseconds': (1, 1000), 'seconds': (1, 1),
+                         'minutes': (60, 1), 'hours': (3600, 1)}
+                for k, v in named.items():
+                    if ('std::chrono::' + k) in (tq or ''):
+                        return v
+                return None
+            src = period(n['inner'][1].get('type', {}).get('desugaredQualType') or qt(args[0]))
+            dst = period(n.get('type', {}).get('desugaredQualType') or qt(n))
+            exact = src and dst and (src[0] * dst[1]) % (src[1] * dst[0]) == 0
+            for st2, ts in self.eval_args(args, st):
+                yield st2, (ts[0] if exact else ('fncall', name, tuple(ts)))
             return
         if name == 'make_optional' and len(args) == 1:
             for st2, ts in self.eval_args(args, st):
@@ -810,8 +1016,29 @@ class Evaluator:
             return
         if name == 'get' and len(args) == 1:
             m = re.search(r'tuple_element<(\d+)', qt(n)) or re.search(r'get<(\d+)', str(fnode.get('type')))
+            idx = int(m.group(1)) if m else None
+            if idx is None:
+                # std::get<I>(pair): the index is a template argument; recover it from the referenced specialisation's name / the types
+                at = (args[0].get('type', {}).get('desugaredQualType') or qt(args[0]) or '')
+                rt = (n.get('type', {}).get('desugaredQualType') or qt(n) or '')
+                idx = self.pair_get_index(fnode, at, rt)
             for st2, b in self.eval(args[0], st):
-                yield st2, ('get', int(m.group(1)) if m else '?', b)
+                if typeclass(qt(args[0])) == 'pair' and idx in (0, 1):
+                    yield st2, self.project(st2, b, 'first' if idx == 0 else 'second')
+                else:
+                    yield st2, ('get', idx if idx is not None else '?', b)
+            return
+        if name == 'advance' and len(args) == 2:
+            # std::advance(it, k): it = std::next(it, k)
+            for st2, lt in self.eval(args[0], st):
+                for st3, kv in self.rv(args[1], st2):
+                    if isinstance(kv, tuple) and kv[0] == 'int':
+                        old_v = self.load(st3, lt, n)
+                        st3.ev('use', old_v, 'advance', site_of(n, st3))
+                        self.write(st3, lt, self.adv(st3, old_v, kv[1], typeclass(qt(args[0]))), n, '++' if kv[1] > 0 else '--')
+                        yield st3, ('void',)
+                    else:
+                        yield st3, self.unknown(st3, 'std::advance with symbolic distance', n)
             return
         if name in ('min', 'max', 'distance', 'advance'):
             for st2, ts in self.eval_args(args, st):
@@ -824,6 +1051,172 @@ class Evaluator:
                 yield st2, ('fncall', name, tuple(ts))
             else:
                 yield st2, self.unknown(st2, 'call:%s' % name, n)
+
+    def deref_term(self, itv):
+        if isinstance(itv, tuple) and itv and itv[0] == 'vit':
+            return ('idx', itv[1], itv[2])
+        return ('deref', itv)
+
+    @staticmethod
+    def pair_get_index(fnode, arg_type, ret_type):
+        """I of std::get<I>(pair<A, B>): from the template arguments clang prints, else by comparing the result type with A / B"""
+        for src in (str(fnode.get('referencedDecl', {}).get('type', {})), str(fnode.get('type', {}))):
+            m = re.search(r'tuple_element<(\d+)', src)
+            if m:
+                return int(m.group(1))
+        m = re.match(r'.*?pair<(.*)>\s*&*$', arg_type.replace('const ', ''))
+        if not m:
+            return None
+        inner = m.group(1)
+        depth, cut = 0, None
+        for i, ch in enumerate(inner):
+            if ch in '<(':
+                depth += 1
+            elif ch in '>)':
+                depth -= 1
+            elif ch == ',' and depth == 0:
+                cut = i
+                break
+        if cut is None:
+            return None
+        a, b = inner[:cut].strip(), inner[cut + 1:].strip()
+        r = ret_type.replace('const ', '').strip(' &')
+        if a == b:
+            return None
+        if r == a:
+            return 0
+        if r == b:
+            return 1
+        return None
+
+    def algorithm(self, n, name, args, st):
+        """std::for_each / find_if / find_if_not / any_of / all_of / none_of / count_if / accumulate over [first, last) with a local
+        lambda, summarised exactly like the hand-written loop it stands for"""
+        site = site_of(n, st)
+        for st2, ts in self.eval_args(args[:2], st):
+            first, last = ts[0], ts[1]
+            rest = args[2:]
+            acc_loc = None
+            stx = st2
+            if name == 'accumulate':
+                if len(rest) != 2:
+                    yield stx, self.unknown(stx, 'call:%s' % name, n)
+                    continue
+                vals = list(self.rv(rest[0], stx))
+                if len(vals) != 1:
+                    yield stx, self.unknown(stx, 'call:%s' % name, n)
+                    continue
+                stx, init_v = vals[0]
+                fn_node = rest[1]
+            else:
+                fn_node = rest[0]
+            fvals = list(self.rv(fn_node, stx))
+            if len(fvals) != 1 or not (isinstance(fvals[0][1], tuple) and fvals[0][1][0] == 'lambda'):
+                yield stx, self.unknown(stx, 'call:%s with a callable that is not a local lambda' % name, n)
+                continue
+            stx, fv = fvals[0]
+            lam = self.ctx.lambdas[fv[1]]
+            lid = stx.fresh()
+            same_range = (isinstance(first, tuple) and isinstance(last, tuple) and first[0] == 'q' and last[0] == 'q'
+                          and first[1] in ('begin', 'cbegin') and last[1] in ('end', 'cend') and first[2] == last[2]
+                          and name not in ('find_if', 'find_if_not'))       # the searches hand back the iterator they stopped at
+            L = Loop(lid, 'range' if same_range else 'for', site)
+            ids = set(self.assigned_locals(lam.body)) if lam.body is not None else set()
+            it_id = 'synth-it-%d' % lid
+            it_loc = ('var', '$it', it_id)
+            stx.env[it_id] = it_loc
+            stx.store[it_loc] = first
+            stx.ev('lwr', it_loc, first, site, 'decl')
+            ids.add(it_id)
+            res_id = 'synth-res-%d' % lid
+            res_loc = ('var', '$acc' if name in ('accumulate', 'count_if') else '$found', res_id)
+            stx.env[res_id] = res_loc
+            if name == 'accumulate':
+                stx.store[res_loc] = init_v
+                stx.ev('lwr', res_loc, init_v, site, 'decl')
+                ids.add(res_id)
+            elif name == 'count_if':
+                stx.store[res_loc] = ('int', 0)
+                stx.ev('lwr', res_loc, ('int', 0), site, 'decl')
+                ids.add(res_id)
+            elif name in ('any_of', 'all_of', 'none_of'):
+                stx.store[res_loc] = ('bool', name != 'any_of')
+                ids.add(res_id)
+            L.assigned = ids
+            if same_range:
+                stx.ev('range', first[2], site)
+            # ---- one arbitrary iteration
+            it_st = stx.clone()
+            it_st.trace = []
+            self.havoc(it_st, ids, lid, 'iter')
+            it_st.ev('iter', lid, it_st.era)
+            if same_range:
+                elem = ('elem', first[2], lid)
+            else:
+                cur = it_st.store[it_loc]
+                # loop condition it != last
+                c = ('cmp', '!=', cur, last)
+                ex = it_st.clone()
+                ex.ev('cond', c, False, site)
+                L.cond_paths.append(Path(ex.trace, None, 'exit'))
+                it_st.ev('cond', c, True, site)
+                it_st.ev('use', cur, 'deref', site)
+                elem = ('deref', cur)
+            call_args = [('TERM', elem)]
+            if name == 'accumulate':
+                call_args = [('TERM', res_loc), ('TERM', elem)]
+
+            def step(stb):
+                if not same_range:
+                    self.write(stb, it_loc, self.adv(stb, stb.store[it_loc], 1, typeclass(qt(args[0]))), n, '++')
+                return stb
+
+            for st_b, rv_ in self.inline(lam, call_args, n, it_st):
+                if name == 'for_each':
+                    L.iters.append(Path(step(st_b).trace, None, 'continue', st_b))
+                elif name == 'accumulate':
+                    self.write(st_b, res_loc, rv_, n, '=')
+                    L.iters.append(Path(step(st_b).trace, None, 'continue', st_b))
+                else:
+                    # the callable's verdict decides: fork on it
+                    truth = None
+                    if isinstance(rv_, tuple) and rv_ and rv_[0] == 'bool':
+                        truth = rv_[1]
+                    else:
+                        d = fold_cmp(rv_)
+                        truth = d
+                    outcomes = [(st_b, truth)] if truth is not None else None
+                    if outcomes is None:
+                        s_t, s_f = st_b, st_b.clone()
+                        s_t.ev('cond', rv_, True, site)
+                        s_f.ev('cond', rv_, False, site)
+                        outcomes = [(s_t, True), (s_f, False)]
+                    for s_o, tr in outcomes:
+                        if name in ('find_if', 'find_if_not'):
+                            hit = tr if name == 'find_if' else (not tr)
+                            if hit:
+                                L.iters.append(Path(s_o.trace, None, 'break', s_o))
+                            else:
+                                L.iters.append(Path(step(s_o).trace, None, 'continue', s_o))
+                        elif name == 'count_if':
+                            if tr:
+                                self.write(s_o, res_loc, self.arith('+', self.load(s_o, res_loc, n), ('int', 1)), n, '++')
+                            L.iters.append(Path(step(s_o).trace, None, 'continue', s_o))
+                        else:
+                            stop = tr if name in ('any_of', 'none_of') else (not tr)
+                            if stop:
+                                self.write(s_o, res_loc, ('bool', name == 'any_of'), n, '=')
+                                L.iters.append(Path(s_o.trace, None, 'break', s_o))
+                            else:
+                                L.iters.append(Path(step(s_o).trace, None, 'continue', s_o))
+            stx.ev('loop', L)
+            self.havoc(stx, ids, lid, 'post')
+            if name == 'for_each':
+                yield stx, fv
+            elif name in ('find_if', 'find_if_not'):
+                yield stx, (self.load(stx, it_loc, n) if not same_range else ('lv', '$it', lid, 'post', it_id))
+            else:
+                yield stx, self.load(stx, res_loc, n)
 
     def e_UserDefinedLiteral(self, n, st):
         name, fid, fkind, fnode = self.callee_name(n)
@@ -907,6 +1300,57 @@ class Evaluator:
                 self.write(st, recv, ('global', 'nullopt'), n)
                 yield st, ('void',)
                 return
+            if name == 'emplace':
+                # o.emplace(args...): o = T(args...)
+                tq = ''
+                try:
+                    tq = qt(n['inner'][0]['inner'][0])
+                except Exception:
+                    pass
+                if len(ts) == 1 and root_of(recv)[0] not in ('local',):
+                    self.write(st, recv, ts[0], n)          # same representation as `o = v` on a stored optional
+                elif len(ts) == 1:
+                    self.write(st, recv, ('ctor', tq or 'std::optional<?>', (ts[0],)), n)
+                else:
+                    inner_t = re.sub(r'^(const\s+)?std::optional<(.*)>\s*&?$', r'\2', tq or '')
+                    payload = ('pair', ts[0], ts[1]) if len(ts) == 2 and inner_t.startswith('std::pair<') else ('ctor', inner_t, tuple(ts))
+                    self.write(st, recv, ('ctor', tq or 'std::optional<?>', (payload,)), n)
+                yield st, ('optval', self.load(st, recv, n))
+                return
+            if name == 'value_or' and len(ts) == 1:
+                if known is not None:
+                    yield st, (known[1] if known[0] else ts[0])
+                    return
+        if tc == 'time_point' and name == 'time_since_epoch' and not ts:
+            # the duration since the clock's epoch: order- and arithmetic-isomorphic to the time point itself
+            yield st, self.load(st, recv, n)
+            return
+        if tc == 'duration' and name == 'count' and not ts:
+            base = n['inner'][0]['inner'][0] if n.get('inner') and n['inner'][0].get('inner') else {}
+            bt = (base.get('type', {}).get('desugaredQualType') or qt(base) or '')
+            v = self.load(st, recv, n)
+            if re.search(r'ratio<\s*1\s*,\s*1000000000\s*>', bt) or (isinstance(v, tuple) and v and v[0] in ('now',)):
+                yield st, v          # ticks of the clock's own duration type: the same ordering as the time points
+                return
+        if tc == 'list' and name in ('back', 'front') and not ts:
+            # a list of node records: l.back() is *std::prev(l.end()), l.front() is *l.begin() (the forms the rest of the code uses)
+            bt = ''
+            try:
+                bt = qt(n['inner'][0]['inner'][0])
+            except Exception:
+                pass
+            et = re.sub(r'[>\s]+$', '', bt).split('::')[-1]
+            if et in self.cm.records:
+                if name == 'back':
+                    endq = ('q', 'end', recv, (), None)
+                    st.ev('q', endq, s)
+                    it = self.adv(st, endq, -1, 'list_it')
+                else:
+                    it = ('q', 'begin', recv, (), st.epoch(recv))
+                    st.ev('q', it, s)
+                st.ev('use', it, 'deref', s)
+                yield st, ('deref', it)
+                return
         if tc == 'umap' and name == 'max_load_factor' and ts:
             model = ('mut', 'W', frozenset(['rehash_policy']))
         else:
@@ -972,6 +1416,21 @@ class Evaluator:
         loc = ('var', v.get('name'), v['id'])
         st.env[v['id']] = loc
         ctor = self.strip(init[0]) if init else None
+        if ctor is not None and ctor.get('kind') in ('CXXMemberCallExpr', 'CallExpr'):
+            # auto guard = lock_helper();  -- a private helper that returns the guard it took (ownership moves to this variable)
+            for st2, gv in self.rv(ctor, st):
+                if isinstance(gv, tuple) and gv and gv[0] == 'guardval':
+                    m, held, emitted = gv[1], gv[2], gv[3]
+                    if held and not emitted:
+                        if any(g[2] == m and g[3] for g in st2.guards):
+                            st2.ev('relock', m, site_of(v, st2))
+                        st2.ev('lock', m, site_of(v, st2), 'guard')
+                    st2.guards.append((st2.scope, loc, m, held))
+                else:
+                    self.unknown(st2, 'lock guard initialised from %s' % ctor.get('kind'), v)
+                    st2.guards.append((st2.scope, loc, ('unknown-mutex',), False))
+                yield st2
+            return
         args = [c for c in (ctor or {}).get('inner', []) if c.get('kind')] if ctor else []
         deferred = len(args) > 1
         if not args:
@@ -1012,6 +1471,13 @@ class Evaluator:
             p = params[i]
             pt = p['type'].get('qualType', '')
             a = args[i] if i < len(args) else None
+            if isinstance(a, tuple) and a and a[0] == 'TERM':
+                is_ref = pt.rstrip().endswith('&')
+                if is_ref:
+                    yield from bind(i + 1, st, binds + [(p, 'ref', a[1])])
+                else:
+                    yield from bind(i + 1, st, binds + [(p, 'val', self.load(st, a[1], n))])
+                return
             if a is None or a.get('kind') == 'CXXDefaultArgExpr':
                 init = [c for c in p.get('inner', []) if c.get('kind') and not c['kind'].endswith('Comment')]
                 if not init:
@@ -1195,6 +1661,14 @@ class Evaluator:
             yield st
             return
         persistent = (v.get('storageClass') == 'static' or v.get('tls')) and not v.get('constexpr')
+        if t.replace('const ', '').strip() == 'bool' and not persistent and self.is_bool_expr(init[0]):
+            # bool flag = (a != b);  decided here, one branch per outcome (same behaviour as testing the expression where the flag is used)
+            for st2, truth in self.cond(self.bool_core(init[0]), st):
+                st2.env[v['id']] = loc
+                st2.store[loc] = ('bool', truth)
+                st2.ev('lwr', loc, ('bool', truth), site_of(v, st2), 'decl')
+                yield st2
+            return
         for st2, t2 in self.rv(init[0], st):
             if persistent and not (isinstance(t2, tuple) and t2 and t2[0] in ('int', 'str', 'float', 'bool', 'enum')):
                 # a function-local static is initialised by the first call only: what it holds now is whatever earlier calls
@@ -1205,16 +1679,44 @@ class Evaluator:
             st2.ev('lwr', loc, t2, site_of(v, st2), 'decl')
             yield st2
 
+    def bool_core(self, x):
+        x = self.strip(x)
+        while x.get('kind') == 'InitListExpr' and len([c for c in x.get('inner', []) if c.get('kind')]) == 1:
+            x = self.strip([c for c in x['inner'] if c.get('kind')][0])
+        return x
+
+    def is_bool_expr(self, x):
+        x = self.bool_core(x)
+        k = x.get('kind')
+        if k == 'BinaryOperator':
+            return x.get('opcode') in ('==', '!=', '<', '>', '<=', '>=', '&&', '||')
+        if k == 'UnaryOperator':
+            return x.get('opcode') == '!'
+        if k == 'CXXOperatorCallExpr':
+            return (self.callee_name(x)[0] or '') in ('operator==', 'operator!=', 'operator<', 'operator>', 'operator<=', 'operator>=')
+        return False
+
     def declare_decomp(self, v, st):
         init = [c for c in v.get('inner', []) if c.get('kind') and c['kind'] != 'BindingDecl']
         binds = [c for c in v.get('inner', []) if c.get('kind') == 'BindingDecl']
         is_ref = v['type'].get('qualType', '').rstrip().endswith('&')
         for st2, b in (self.eval(init[0], st) if init else [(st, ('undef',))]):
+            copy_from_loc = False
             if not is_ref:
-                b = self.load(st2, b, v) if init and init[0].get('valueCategory') != 'prvalue' else b
-                tmp = ('var', '$decomp', v['id'])
-                st2.store[tmp] = b
-                base = b if isinstance(b, tuple) and b[0] in ('pair',) else b
+                if init and init[0].get('valueCategory') != 'prvalue' and isinstance(b, tuple) and b and b[0] in ('deref', 'idx', 'fld', 'elem', 'q', 'var'):
+                    # a copy of an object that lives somewhere: members are read from that object now, then live in the copy
+                    copy_from_loc = True
+                    base = b
+                else:
+                    b = self.load(st2, b, v) if init and init[0].get('valueCategory') != 'prvalue' else b
+                    if isinstance(b, tuple) and b and b[0] == 'ld' and b[1] == st2.era and isinstance(b[2], tuple) and b[2][0] in ('deref', 'idx', 'elem'):
+                        # copy-constructed from an object read just now
+                        copy_from_loc = True
+                        base = b[2]
+                    else:
+                        tmp = ('var', '$decomp', v['id'])
+                        st2.store[tmp] = b
+                        base = b
             else:
                 base = b
             bt = typeclass(qt(init[0])) if init else 'other'
@@ -1236,6 +1738,10 @@ class Evaluator:
                     term = self.project(st2, base, 'first' if idx == 0 else 'second')
                 else:
                     term = ('get', idx, base)
+                if copy_from_loc:
+                    cp = ('fld', ('var', '$decomp', v['id']), 'm%d' % idx)
+                    st2.store[cp] = self.load(st2, term, v)
+                    term = cp
                 st2.env[bd['id']] = term
                 if inner and inner[0].get('kind') == 'DeclRefExpr':
                     st2.env[inner[0]['referencedDecl']['id']] = term
@@ -1248,6 +1754,26 @@ class Evaluator:
             yield st, ('ret', ('void',))
             return
         e0 = self.strip(inner[0])
+        if typeclass(qt(inner[0])) == 'lockguard':
+            # a helper handing its guard to the caller: no release here, the caller's variable owns the lock from now on
+            if e0.get('kind') == 'DeclRefExpr':
+                gl = st.env.get(e0['referencedDecl']['id'])
+                for i, g in enumerate(st.guards):
+                    if g[1] == gl:
+                        st.guards.pop(i)
+                        st.ev('ret', ('guardval', g[2], g[3], True), site_of(n, st))
+                        yield st, ('ret', ('guardval', g[2], g[3], True))
+                        return
+            elif e0.get('kind') in ('CXXConstructExpr', 'CXXTemporaryObjectExpr', 'InitListExpr', 'CXXFunctionalCastExpr'):
+                cargs = [c for c in e0.get('inner', []) if c.get('kind')]
+                if e0.get('kind') == 'CXXFunctionalCastExpr' and cargs:
+                    cargs = [c for c in self.strip(cargs[0]).get('inner', []) if c.get('kind')]
+                if cargs:
+                    for st2, ts in self.eval_args(cargs[:1], st, as_value=False):
+                        gv = ('guardval', ts[0], len(cargs) == 1, False)
+                        st2.ev('ret', gv, site_of(n, st2))
+                        yield st2, ('ret', gv)
+                    return
         if qt(inner[0]) == 'bool' and e0.get('kind') in ('BinaryOperator', 'CXXOperatorCallExpr', 'UnaryOperator'):
             # `return a != b;` is normalised to `if (a != b) return true; else return false;` (same behaviour, one more branch)
             for st2, truth in self.cond(inner[0], st):
@@ -1458,6 +1984,56 @@ class Evaluator:
                 from_param = b[0] == 'p' or (cur is not None and root_of(cur)[0] == 'param')
                 st.store[b] = ('lv', b[1], lid, tag, 'param') if from_param else ('lv', b[1], lid, tag, b[2] if len(b) > 2 else None)
 
+    @staticmethod
+    def ast_shape(x):
+        """structure of an expression without node identities / positions (to compare two occurrences of the same source text)"""
+        if isinstance(x, dict):
+            if x.get('kind') in ('ImplicitCastExpr', 'ParenExpr', 'ExprWithCleanups', 'MaterializeTemporaryExpr', 'CXXBindTemporaryExpr',
+                                 'CXXConstructExpr') and len([c for c in x.get('inner', []) if isinstance(c, dict) and c.get('kind')]) == 1:
+                return Evaluator.ast_shape([c for c in x['inner'] if isinstance(c, dict) and c.get('kind')][0])
+            out = []
+            for k in ('kind', 'name', 'opcode', 'value', 'castKind', 'isArrow'):
+                if k in x:
+                    out.append((k, x[k]))
+            r = x.get('referencedDecl')
+            if isinstance(r, dict):
+                out.append(('ref', r.get('id')))
+            m = x.get('referencedMemberDecl')
+            if m:
+                out.append(('mref', m))
+            out.append(tuple(Evaluator.ast_shape(c) for c in x.get('inner', []) if isinstance(c, dict) and c.get('kind')))
+            return tuple(out)
+        return x
+
+    def reseeded_var(self, init, inc, body, cond):
+        """for (auto v = E; ...; v = E): v is re-computed from the current state by the same expression at loop entry and at the end of
+        every iteration (and nowhere else): at every evaluation of the condition v == E(current state).  -> (VarDecl, E) or None"""
+        if init is None or inc is None or init.get('kind') != 'DeclStmt':
+            return None
+        ds = [c for c in init.get('inner', []) if c.get('kind') == 'VarDecl']
+        if len(ds) != 1:
+            return None
+        v = ds[0]
+        vi = [c for c in v.get('inner', []) if isinstance(c, dict) and c.get('kind') and not c['kind'].endswith('Comment')]
+        if len(vi) != 1:
+            return None
+        x = self.strip(inc)
+        rhs = None
+        if x.get('kind') == 'BinaryOperator' and x.get('opcode') == '=':
+            l, rhs = x['inner'][0], x['inner'][1]
+        elif x.get('kind') == 'CXXOperatorCallExpr' and self.callee_name(x)[0] == 'operator=':
+            l, rhs = x['inner'][1], x['inner'][2]
+        else:
+            return None
+        l = self.strip(l)
+        if not (l.get('kind') == 'DeclRefExpr' and l['referencedDecl'].get('id') == v['id']):
+            return None
+        if self.ast_shape(rhs) != self.ast_shape(vi[0]):
+            return None
+        if v['id'] in self.assigned_locals(body) or (cond is not None and v['id'] in self.assigned_locals(cond)):
+            return None
+        return v, vi[0]
+
     def do_loop(self, n, st, kind, init, cond, inc, body, range_info=None):
         """summarise a loop: one arbitrary iteration per body path from a havocked state; continue after it
         from a havocked state.  Iteration paths that return terminate the function."""
@@ -1478,6 +2054,12 @@ class Evaluator:
             if range_info is not None:
                 self.bind_range_var(range_info, it_st, lid)
             outs = []
+            if reseed is not None:
+                vloc = it_st.env.get(reseed[0]['id'])
+                vals = list(self.rv(reseed[1], it_st))
+                if len(vals) == 1 and vloc is not None:
+                    it_st = vals[0][0]
+                    it_st.store[vloc] = vals[0][1]
             conds = self.cond(cond, it_st) if cond is not None else [(it_st, True)]
             for st_c, truth in conds:
                 if not truth:
@@ -1504,8 +2086,15 @@ class Evaluator:
                 yield r, flow
             # ---- continuation after the loop
             self.havoc(st, ids, lid, 'post')
+            if reseed is not None:
+                vloc = st.env.get(reseed[0]['id'])
+                vals = list(self.rv(reseed[1], st))
+                if len(vals) == 1 and vloc is not None:
+                    st = vals[0][0]
+                    st.store[vloc] = vals[0][1]
             yield st, None
 
+        reseed = self.reseeded_var(init, inc, body, cond) if kind == 'for' else None
         if init is not None:
             for st2, flow in self.exec(init, st):
                 if flow is not None:
@@ -1592,6 +2181,11 @@ class Evaluator:
                     term = ('fld', base, 'first' if idx == 0 else 'second')
                 else:
                     term = ('get', idx, base)
+                if not is_ref:
+                    # `auto [a, b] : range` copies the element: reads see the element's values, writes stay in the copy
+                    copy = ('fld', ('var', '$decomp', d['id']), 'm%d' % idx)
+                    st.store[copy] = self.load(st, term, d)
+                    term = copy
                 st.env[bd['id']] = term
                 if inner and inner[0].get('kind') == 'DeclRefExpr':
                     st.env[inner[0]['referencedDecl']['id']] = term
@@ -1602,7 +2196,7 @@ class Evaluator:
             else:
                 loc = ('var', d.get('name'), d['id'])
                 st.env[d['id']] = loc
-                st.store[loc] = elem
+                st.store[loc] = self.load(st, elem, d)
         else:
             self.unknown(st, 'range var %s' % k, var)
 
@@ -1790,7 +2384,7 @@ def dump_path(p, out=sys.stdout, indent=''):
 
 if __name__ == '__main__':
     import frontend
-    repo = '/repo'
+    repo = os.environ.get('REPO', '/repo')
     prog = frontend.load_program(repo)
     cls = sys.argv[1] if len(sys.argv) > 1 else 'lru_cache'
     names = sys.argv[2:] or None
